@@ -33,6 +33,7 @@ type VC struct {
 	notes       []string
 	ghostLocalSorts map[string]string
 	heapTrace       map[string]string
+	quiet           int
 }
 
 type Obligation struct {
@@ -104,6 +105,9 @@ func (vc *VC) freshConst(hint, sort string) string {
 
 // define a named abbreviation (keeps terms DAG-shaped)
 func (vc *VC) define(hint, sort, term string) string {
+	if vc.quiet > 0 {
+		return term
+	}
 	if len(term) < 40 && !strings.Contains(term, "ite") {
 		return term
 	}
@@ -121,7 +125,8 @@ func (vc *VC) uf(name string, argSorts []string, res string) {
 }
 
 func (vc *VC) assume(pc, fact string) {
-	if fact == "true" {
+	if fact == "true" || vc.quiet > 0 {
+		// quiet: inside a quantifier body (terms mention bound variables)
 		return
 	}
 	if pc == "true" {
